@@ -201,7 +201,69 @@ fn run_random(layout: Layout, bits: u32, ks: &[K], st: &mut Stats, sb: &Sandbox)
     Ok(())
 }
 
+/// The rules must not depend on WHICH member of a class is typed: all three-key histories k1 k2 k3 with k1 and k3 over
+/// EVERY assigned key of the layout (both planes, number pad) and k2 over the class representatives the layout has
+/// (hasanta, chandrabindu, signs, length mark, joiners, digits, marks ...), judged step by step like every other history.
+fn full_layout_triples(run: &Run) {
+    let settings: Vec<u32> = run.tier.pick(vec![0, 0b0111], (0..16).collect());
+    let reps: Vec<String> = sigma().into_iter().map(|(v, _)| v).chain(["\u{200D}".to_string(), "\u{09A4}".to_string(), "\u{09C7}".to_string()]).collect();
+    let mut items: Vec<(Layout, u32, usize)> = vec![];
+    for layout in [Layout::Probhat, Layout::Synthetic] {
+        for &bits in &settings {
+            for chunk in 0..8usize {
+                items.push((layout, bits, chunk));
+            }
+        }
+    }
+    run.exhaustive(
+        "three-key-histories-all-keys-x-class-representative-x-all-keys",
+        &items,
+        |_| Sandbox::new(),
+        |&(layout, bits, chunk), st, sb| {
+            let (mut opts, f) = fixed_opts(bits);
+            opts.layout = layout;
+            opts.numpad = true;
+            let all = all_fixed_keys(layout);
+            let mid: Vec<&(u16, u8, String)> = all.iter().filter(|(_, _, v)| reps.contains(v)).collect();
+            let ctx = Ctx::new(opts, sb).map_err(|p| Failure::new(panic_kind(&p), p.to_string(), json!({})))?;
+            let name = |c: u16, m: u8| format!("{}:{}", keys().by_code(c).map(|k| k.name.as_str()).unwrap_or("?"), m);
+            for (i, k1) in all.iter().enumerate() {
+                if i % 8 != chunk {
+                    continue;
+                }
+                for k2 in &mid {
+                    for k3 in &all {
+                        let _ = ctx.finish();
+                        let mut prev = String::new();
+                        let mut fired = false;
+                        for (n, k) in [k1, *k2, k3].into_iter().enumerate() {
+                            let case = || {
+                                let shown: Vec<String> = [k1, *k2, k3].iter().take(n + 1).map(|k| name(k.0, k.1)).collect();
+                                json!({"opts": opts.letters(), "random_keys": shown})
+                            };
+                            let r = ctx.key(k.0, k.1, 0).map_err(|p| Failure::new(panic_kind(&p), p.to_string(), case()))?;
+                            match judge(&prev, Some(k.2.as_str()), &r.text, f) {
+                                Ok(rule) => fired |= !matches!(rule, Rule::Append | Rule::SignPlain | Rule::Zofola | Rule::Unjudged),
+                                Err(m) => return Err(Failure::new("composition-rule", m, case())),
+                            }
+                            prev = r.text;
+                        }
+                        st.evals(1);
+                        if fired && (k3.0 % 32 == 0) {
+                            st.nontrivial(hash_of(&(layout, bits, k1.0, k1.1, k2.0, k2.1, k3.0, k3.1)), || json!({"opts": opts.letters(), "keys": [&k1.2, &k2.2, &k3.2], "text": prev}));
+                        }
+                    }
+                }
+            }
+            let _ = ctx.finish();
+            st.label("full-layout-triples");
+            Ok(())
+        },
+    );
+}
+
 pub fn run(run: &Run) {
+    full_layout_triples(run);
     exhaustive(run, run.tier.pick(4, 5));
     let cases = run.tier.pick(20000, 300000);
     for layout in [Layout::Synthetic, Layout::Probhat] {
